@@ -278,6 +278,7 @@ class Scenario:
                 self.op("a")
                 continue
             break
+        aprobe.check_kept(log)
         log.add("end", quiescent=not (log.pending or loop.live_ready()), obs=self.obs())
 
     def holding(self):
